@@ -237,17 +237,17 @@ theorem addChar_ov (b : WB) (m : WS) (mt wt : Tag) (cur : Bool) (c : Ch) (r : WB
     b.ov.addChar m mt wt cur c = .ok (r.1.ov, r.2) := by
   unfold WB.addChar at h ⊢
   simp only at h ⊢
-  have e0 : (if (c.ws && decide (b.ov.wordlen > 0)) = true then b.ov.flushWord m else Except.ok b.ov) =
-      (match (if (c.ws && decide (b.wordlen > 0)) = true then b.flushWord m else Except.ok b) with
+  have e0 : (if (c.ws && !b.ov.word.noContent) = true then b.ov.flushWord m else Except.ok b.ov) =
+      (match (if (c.ws && !b.word.noContent) = true then b.flushWord m else Except.ok b) with
         | .ok b1 => Except.ok b1.ov
-        | .error e => (if (c.ws && decide (b.ov.wordlen > 0)) = true then b.ov.flushWord m else Except.ok b.ov)) := by
-    by_cases hc : (c.ws && decide (b.wordlen > 0)) = true
-    · rw [if_pos hc, if_pos (show (c.ws && decide (b.ov.wordlen > 0)) = true from hc)]
+        | .error e => (if (c.ws && !b.ov.word.noContent) = true then b.ov.flushWord m else Except.ok b.ov)) := by
+    by_cases hc : (c.ws && !b.word.noContent) = true
+    · rw [if_pos hc, if_pos (show (c.ws && !b.ov.word.noContent) = true from hc)]
       cases hf : b.flushWord m with
       | error e => rfl
       | ok b1 => simp only; exact flushWord_ov b b1 m hf
-    · rw [if_neg hc, if_neg (show ¬ (c.ws && decide (b.ov.wordlen > 0)) = true from hc)]
-  generalize hr : (if (c.ws && decide (b.wordlen > 0)) = true then b.flushWord m else Except.ok b) = r0 at h e0
+    · rw [if_neg hc, if_neg (show ¬ (c.ws && !b.ov.word.noContent) = true from hc)]
+  generalize hr : (if (c.ws && !b.word.noContent) = true then b.flushWord m else Except.ok b) = r0 at h e0
   cases r0 with
   | error e => simp at h
   | ok b1 =>
